@@ -9,7 +9,9 @@ _words = None
 def words():
     global _words
     if _words is None:
-        with open(os.path.join(core.REPO, "src/mnemonic/wordlist/english.txt"), encoding="utf-8") as f:
+        # the committed REFERENCE list (sha256 2f5eed53…dbda), not the repository's copy: a change to the
+        # embedded list must show up as a difference, not be followed by the generator
+        with open(os.path.join(core.VERIF, "data", "bip39_english.txt"), encoding="utf-8") as f:
             _words = [w.strip() for w in f.read().strip().split("\n")]
     return _words
 
